@@ -374,6 +374,10 @@ func GenUciSession(prop string, seed uint64) *Scenario {
 			goLine = fmt.Sprintf("go nodes %d", rng.LogRange(1, 20000))
 		case 2: // movetime
 			mt := clampMs(rng.LogRange(1, 400), 1)
+			if rng.Chance(0.25) {
+				// boundary values around typical safety margins and polling periods
+				mt = clampMs([]int64{1, 2, 4, 5, 6, 9, 10, 11, 15, 19, 20, 21, 25, 40, 50, 100}[rng.Intn(16)], 1)
+			}
 			goLine = fmt.Sprintf("go movetime %d", mt)
 			boundMs = mt + 2000
 		case 3: // clock
